@@ -82,7 +82,7 @@ type Req struct {
 }
 
 type Op struct {
-	Code int64 // 1 req 2 podphase 3 poddeleting 4 podgone 5 pgphase 6 syncjob 7 syncpods 8 syncpg 9 setspec 10 restart 11 replacejob 12 jobdeleting 13 stalejob 14 fire (the oldest armed delayed action expires)
+	Code int64 // 1 req 2 podphase 3 poddeleting 4 podgone 5 pgphase 6 syncjob 7 syncpods 8 syncpg 9 setspec 10 restart 11 replacejob 12 jobdeleting 13 stalejob 14 fire (the oldest armed delayed action expires) 15 resync(t,i,race): the resync worker's syncTask for the pod; race (Ph != 0): the pod goes away and its delete event is delivered between the worker's GET and its cache.UpdatePod
 	Req  Req
 	T, I int64
 	Ph   int64
@@ -281,7 +281,7 @@ func (w *W) Op(o Op) {
 	switch o.Code {
 	case 1:
 		w.Req(o.Req)
-	case 2:
+	case 2, 15:
 		w.Z(o.T, o.I, o.Ph)
 	case 3, 4:
 		w.Z(o.T, o.I)
@@ -328,7 +328,7 @@ func (r *R) Op() Op {
 	switch o.Code {
 	case 1:
 		o.Req = r.Req()
-	case 2:
+	case 2, 15:
 		o.T, o.I, o.Ph = r.Z(), r.Z(), r.Z()
 	case 3, 4:
 		o.T, o.I = r.Z(), r.Z()
@@ -753,6 +753,8 @@ func (e *Env) Step(ns string, o Op) Obs {
 		e.StaleJob(ns)
 	case 14:
 		fired = e.FireNext()
+	case 15:
+		e.ResyncPod(ns, PodName(o.T, o.I), o.Ph != 0)
 	}
 	if FakeClock {
 		time.Sleep(time.Millisecond) // one tick per step: no two timers share a deadline
